@@ -47,7 +47,7 @@ MAP = [
  ("S51", "C10", "A", "epoch-ledger-persisted-before-commit-marker", "a flush fault on a later transaction after its frames were written, process loss, a recovered host that acknowledges new work", "first run: caught (C10.R1 flush_commit:ledger-after-marker)"),
  ("S52", "C10", "B", "retry-index-keeps-only-pending-submissions", "an acknowledged submission decided by a committed tick, a restart, then a retry of that exact envelope", "first run: missed"),
  ("S53", "C11", "A", "segment-evidence-from-the-recovery-scan", "a sealed, manifested log with >=3 transactions and only the commit marker of a non-final transaction deleted", "first run: missed"),
- ("S54", "C11", "B", "ledger-reconciliation-uses-active-epoch-horizon", "a root that went through three writer epochs with a foreign transaction spliced over the middle epoch's", "first run: missed — and still NOT decided (see below)"),
+ ("S54", "C11", "B", "ledger-reconciliation-uses-active-epoch-horizon", "a root that went through three writer epochs with a foreign transaction spliced over the middle epoch's", "first run: missed; first judged a value-level preference and left undecided, then decided by C11.R6 (both spellings of the preference accepted)"),
  ("S55", "C13", "A", "edict-map-values-decoded-at-same-depth", "~32 000 levels of nesting through map values (about 64 KiB of input)", "first run: missed (R3 checked that a depth is compared, not that every recursive call advances it)"),
  ("S56", "C13", "B", "ingress-count-guard-multiplies-before-comparing", "a declared causal-parent count >= ~2^64/177 in a ~50 byte retained envelope", "first run: caught (C13.R6, written for S17, generalised)"),
  ("S57", "C12", "A", "ingress-v2-reencode-gate-replaced-by-parent-count", "an EINGR002 record with >=2 distinct causal parents out of Ord order", "first run: missed — and the existing re-encode rule turned out to be VACUOUS for this decoder (pattern did not match `to_retained_bytes_v2`, then `continue`)"),
@@ -157,8 +157,8 @@ for sid, prop, var, slug, needs, first in MAP:
     fired = res.get(key, {})
     det = sorted({"%s %s %s" % (p, k[0], k[1]) for p, v in fired.items() if isinstance(v, dict) for k in v.get("fired", []) if not k[0].startswith(("anchor", "floor"))})
     det_anchor = sorted({"%s %s" % (p, k[1][:80]) for p, v in fired.items() if isinstance(v, dict) for k in v.get("fired", []) if k[0].startswith("anchor")})
-    NOISE = ("provenance-coordinate:commit_hash-compared",)  # a finding on the unchanged tree that was still unfixed while the seed runs were in progress
-    det = [d_ for d_ in det if not d_.endswith(NOISE)]
+    NOISE = ("provenance-coordinate:commit_hash-compared", "epoch-horizon:oldest-retained-epoch-first")  # a finding on the unchanged tree that was still unfixed while the seed runs were in progress
+    det = [d_ for d_ in det if not d_.endswith(NOISE) or (sid == "S54" and "epoch-horizon" in d_)]
     meta = {"id": os.path.basename(dst), "breaks_property": prop, "change": CHANGE.get(sid, ""), "needs_to_manifest": needs, "base_commit": "011e441 (patch still applies to the current /repo HEAD)",
             "confirmed_by_me": confirmed, "what_i_ran": conf_txt + " Then: git -C /repo apply patch.diff; all twenty ./check Cnn; git -C /repo checkout -- . (selftest/run_seeds.py).",
             "detected_by": det, "detected_only_by_fail_closed_anchor": det_anchor if not det else [], "first_run": first}
